@@ -60,7 +60,7 @@ def registry_accessTokenForScope : Shape :=
 
 def registry_acquireAccessToken : Shape :=
   { conds := ["if err != nil", "if !errors.As(err, &herr) || herr.StatusCode() != http.StatusUnauthorized", "if err != nil", "if tok.RefreshToken != \"\"", "if accessToken == \"\"", "if accessToken == \"\"", "if tok.ExpiresIn == 0"]
-    calls := ["requestableScope(requiredScope).Union(requestableScope(wantScope))", "r.acquireToken(ctx, scope)", "r.acquireToken(ctx, scope)", "now.Add(60 * time.Second)", "now.Add(time.Duration(tok.ExpiresIn) * time.Second)"]
+    calls := ["requestableScope(requiredScope).Union(requestableScope(wantScope))", "r.acquireToken(ctx, scope)", "r.acquireToken(ctx, scope)", "now.Add(60 * time.Second)", "now.Add(time.Duration(seconds) * time.Second)"]
     returns := ["\"\", err", "\"\", err", "\"\", fmt.Errorf(\"no access token found in auth server response\")", "accessToken, nil"]
     assigns := ["scope := requestableScope(requiredScope).Union(requestableScope(wantScope))", "scope = requestableScope(requiredScope)", "r.refreshToken = tok.RefreshToken", "r.accessTokens = append(r.accessTokens, &scopedToken{scope: scope, token: accessToken, expires: expires})"] }
 
